@@ -34,6 +34,12 @@ type pnode struct {
 	sshape string // struct-like nodes: shape of the plain fields inside
 	key    string // map entries
 	isElem bool   // slice/array element or map entry: inCfg/inPre are fixed by the collection
+	// fromInit: the map entry InitDefaults of the map type inserts (key initKey)
+	fromInit bool
+	// boxed: interface position whose pre-filled number sits behind a pointer (iface(*int))
+	boxed bool
+	// cycle: pre-filled Node whose Next pointers lead into a cycle of that many nodes
+	cycle int
 	// dropped: pre-filled element of a slice that the configuration replaces
 	// (replace mode): it is rendered into the target but is no fault position
 	dropped bool
@@ -151,16 +157,39 @@ func (d dom) with(vals []vtag) dom {
 		case "min":
 			b := boundOf(k, v.param)
 			raise(b)
-			d.bounds = append(d.bounds, b)
-			d.edge = d.edge || isEdge(v.param)
+			if !beyondDuration(k, b) {
+				d.bounds = append(d.bounds, b)
+			}
+			d.edge = d.edge || isEdge(v.param) && wide64(k)
 		case "max":
 			b := boundOf(k, v.param)
 			lower(b)
-			d.bounds = append(d.bounds, b)
-			d.edge = d.edge || isEdge(v.param)
+			if !beyondDuration(k, b) {
+				d.bounds = append(d.bounds, b)
+			}
+			d.edge = d.edge || isEdge(v.param) && wide64(k)
 		}
 	}
 	return d
+}
+
+// maxDurSeconds: the largest number of seconds a time.Duration holds (rounded down).
+const maxDurSeconds = 9223372036.0
+
+// beyondDuration: a duration bound in seconds no time.Duration reaches.
+func beyondDuration(k kind, seconds float64) bool {
+	return k == kDur && (seconds > maxDurSeconds || seconds < -maxDurSeconds)
+}
+
+// beyondParam: the parameter of a min / max on a duration lies beyond the range.
+func beyondParam(k kind, v vtag) bool {
+	return (v.name == "min" || v.name == "max") && beyondDuration(k, boundOf(k, v.param))
+}
+
+// empty: no value of the kind satisfies the domain (a duration bound beyond
+// the range on the wrong side).
+func (d dom) empty() bool {
+	return d.k == kDur && (d.hasLo && d.lo > maxDurSeconds || d.hasHi && d.hi < -maxDurSeconds)
 }
 
 // ---------------------------------------------------------------------------
@@ -413,6 +442,15 @@ func (d dom) valid(r *rand.Rand) interface{} {
 		}
 	}
 	lo, hi := d.lo, d.hi
+	if d.k == kDur {
+		// bounds beyond the range of a duration restrict nothing
+		if d.hasLo && lo < -maxDurSeconds {
+			d.hasLo = false
+		}
+		if d.hasHi && hi > maxDurSeconds {
+			d.hasHi = false
+		}
+	}
 	if !d.hasLo {
 		lo = -30
 		if d.hasHi && hi-40 < lo {
@@ -469,6 +507,13 @@ func (d dom) bad(r *rand.Rand, v vtag) (interface{}, bool) {
 	}
 	// a value at the edge of the kind's range that breaks v: always for an edge
 	// bound, one time in three otherwise
+	if beyondParam(d.k, v) {
+		if tagHolds(d.k, time.Second, v) {
+			return nil, false // every duration satisfies the bound
+		}
+		// no duration does: any value is a fault
+		return []interface{}{time.Second, -3 * time.Second, 90 * time.Minute, time.Duration(0), 2562047 * time.Hour, -2562047 * time.Hour}[r.Intn(6)], true
+	}
 	if (v.name == "min" || v.name == "max" || v.name == "positive") && d.k.base() == kFloat && r.Intn(5) == 0 {
 		return math.NaN(), true // satisfies no comparison
 	}
@@ -674,6 +719,8 @@ func (g *pgen) structKids(n *pnode, ctx pctx) {
 			shape = "double-pointer-field"
 		case f.t.k == kPtr && f.t.elem.k.scalar():
 			shape = "pointer-field"
+		case f.t.k == kIface && f.t.prt != nil:
+			shape = "pointer-to-interface"
 		case f.t.prt != nil:
 			shape = "pointer-to-collection"
 		case f.t.k == kMap && f.inline:
@@ -689,9 +736,18 @@ func (g *pgen) structKids(n *pnode, ctx pctx) {
 				init = initValue(f.t.k)
 			}
 		}
+		if n.fromInit {
+			// the entry exists before the configuration is merged into it
+			if field, v := mapInit(n.parent.t.lib); field == f.goName {
+				init = v
+			}
+		}
 		n.kids = append(n.kids, g.node(f.t, f, n, path, shape, ctx, init))
 	}
 	g.fixLib(n, s)
+	if s.lib == "Node" && n.inPre && g.r.Intn(3) == 0 {
+		n.cycle = 1 + g.r.Intn(3)
+	}
 }
 
 func libInit(lib, field string) interface{} {
@@ -768,10 +824,10 @@ func (g *pgen) leaf(n *pnode, ctx pctx, init interface{}) {
 	req := n.f != nil && n.f.has("required")
 	nullable := n.t.k == kPtr || n.t.k == kIface
 	var opts []string
-	if ctx.canCfg {
+	if ctx.canCfg && !d.empty() {
 		opts = append(opts, "config", "config", "config", "config")
 	}
-	if ctx.canPre && !req && init == nil {
+	if ctx.canPre && !req && init == nil && !d.empty() {
 		opts = append(opts, "default", "default", "default")
 	}
 	switch {
@@ -808,6 +864,9 @@ func (g *pgen) leaf(n *pnode, ctx pctx, init interface{}) {
 	case "default":
 		n.inPre, n.preVal = true, d.valid(r)
 	}
+	if n.t.k == kIface && n.inPre && r.Intn(3) == 0 {
+		n.boxed = true
+	}
 }
 
 // zeroValid: the zero value of the kind passes the kind's own Validate.
@@ -835,7 +894,7 @@ func (g *pgen) iface(n *pnode, ctx pctx) {
 			if !needCfg && !req && r.Intn(5) == 0 {
 				return
 			}
-			n.sshape = "interface-field"
+			n.sshape = n.shape
 			n.inPre = true
 			n.inCfg = ctx.canCfg && (needCfg || req || g.force || r.Intn(2) == 0)
 			if (needCfg || req) && !n.inCfg {
@@ -865,10 +924,14 @@ func (g *pgen) elemShape(k kind) string {
 // elem creates one element / entry of a collection with fixed flags. seg is
 // its index in the configuration list (or key), rseg its index in the result.
 func (g *pgen) elem(coll *pnode, seg, rseg string, inCfg, inPre bool) *pnode {
+	return g.elemFrom(coll, seg, rseg, inCfg, inPre, false)
+}
+
+func (g *pgen) elemFrom(coll *pnode, seg, rseg string, inCfg, inPre, fromInit bool) *pnode {
 	e := coll.t.elem
 	shape := g.elemShape(coll.t.k)
 	n := &pnode{t: e, parent: coll, path: childPath(coll.path, seg), rpath: childPath(coll.rpath, rseg), seg: seg, rseg: rseg,
-		shape: shape, isElem: true, mode: coll.mode}
+		shape: shape, isElem: true, mode: coll.mode, fromInit: fromInit}
 	ctx := pctx{inCfg, inPre, inCfg}
 	if e.k.scalar() {
 		g.leaf(n, ctx, nil)
@@ -1051,6 +1114,28 @@ func (g *pgen) mapNode(n *pnode, ctx pctx) {
 		k.key = mapKeys[perm[i]]
 		n.kids = append(n.kids, k)
 	}
+	if field, iv := mapInit(n.t.lib); iv != nil && ctx.visited {
+		// the entry InitDefaults inserts whenever the map's holder is unpacked
+		// (also into a nil map, also when the configuration only sets other keys);
+		// where the inserted value is invalid the configuration has to repair it
+		var need bool
+		if field == "" {
+			need = !domainOf(e.k, nil).okValue(iv)
+		} else {
+			for _, f := range e.fields {
+				if f.goName == field {
+					need = !domainOf(f.t.k, f.vals).okValue(iv)
+				}
+			}
+		}
+		in := ctx.canCfg && (need || g.force || r.Intn(3) == 0)
+		if need && !in {
+			g.infeasible = true
+		}
+		k := g.elemFrom(n, initKey, initKey, in, false, true)
+		k.key = initKey
+		n.kids = append(n.kids, k)
+	}
 	nCfg := 0
 	for _, k := range n.kids {
 		if k.inCfg {
@@ -1067,6 +1152,9 @@ func (g *pgen) mapNode(n *pnode, ctx pctx) {
 		return // an inline map is present exactly when one of its keys is
 	}
 	g.emptyOrNull(n, ctx, nCfg, n.inPre)
+	if n.t.lib != "" {
+		n.cfgNull = false // (present and empty instead)
+	}
 }
 
 var globalModes = []string{"append", "prepend", "replace", "replacearr"}
@@ -1360,6 +1448,17 @@ func pre(n *pnode, dst reflect.Value) {
 		for _, k := range n.kids {
 			pre(k, sv.Field(k.f.idx))
 		}
+		if n.cycle > 0 {
+			// Next leads into a ring of n.cycle further nodes (all valid)
+			ring := make([]*Node, n.cycle)
+			for i := range ring {
+				ring[i] = &Node{V: 1 + i}
+			}
+			for i := range ring {
+				ring[i].Next = ring[(i+1)%len(ring)]
+			}
+			sv.FieldByName("Next").Set(reflect.ValueOf(ring[0]))
+		}
 	case n.t.k.scalar():
 		dst.Set(conv(n.preVal, n.t.rt))
 	case n.t.k == kPtr:
@@ -1369,6 +1468,12 @@ func pre(n *pnode, dst reflect.Value) {
 	case n.t.k == kIface:
 		switch x := n.preVal.(type) {
 		case int64:
+			if n.boxed {
+				p := new(int)
+				*p = int(x)
+				dst.Set(reflect.ValueOf(p))
+				break
+			}
 			dst.Set(reflect.ValueOf(int(x)))
 		default:
 			dst.Set(reflect.ValueOf(n.preVal))
@@ -1399,7 +1504,7 @@ func pre(n *pnode, dst reflect.Value) {
 			if k.inPre {
 				e := reflect.New(n.t.elem.rt).Elem()
 				pre(k, e)
-				m.SetMapIndex(reflect.ValueOf(k.key), e)
+				m.SetMapIndex(reflect.ValueOf(k.key).Convert(n.t.keyType()), e)
 			}
 		}
 		dst.Set(m)
@@ -1542,6 +1647,13 @@ func apply(n *pnode, dst reflect.Value) {
 			apply(k, dst.Index(i))
 		}
 	case n.t.k == kMap:
+		if _, iv := mapInit(n.t.lib); iv != nil {
+			// InitDefaults of the map type runs whenever the map is unpacked
+			if dst.IsNil() {
+				dst.Set(reflect.MakeMap(n.t.rt))
+			}
+			dst.Interface().(initializer).InitDefaults()
+		}
 		if !n.inCfg {
 			return
 		}
@@ -1552,7 +1664,7 @@ func apply(n *pnode, dst reflect.Value) {
 			if !k.inCfg {
 				continue
 			}
-			key := reflect.ValueOf(k.key)
+			key := reflect.ValueOf(k.key).Convert(n.t.keyType())
 			e := reflect.New(n.t.elem.rt).Elem()
 			if old := dst.MapIndex(key); old.IsValid() {
 				e.Set(old)
@@ -1583,6 +1695,8 @@ func (n *pnode) source() string {
 		return "config"
 	case n.inPre:
 		return "default"
+	case n.fromInit:
+		return "initdefaults"
 	}
 	return "absent"
 }
